@@ -1,12 +1,12 @@
 (* Single extraction unit -> ocaml/model_gen.ml. Directives used: those of ExtrOcamlBasic only
    (bool, option, unit, list, prod, sumbool -> OCaml natives). N/Z/positive stay extracted datatypes. *)
 From Coq Require Extraction ExtrOcamlBasic ExtrOCamlFloats ExtrOCamlInt63.
-From VF Require Import Base.Prelude Generated.Consts C20.Model C19.Model Sheet.Model Sheet.Adjust C16.Model C17.Model C07.Model C08.Machine C08.Model C13.Model C13.Chains Sheet.View C11.Model C12.Model C10.Model C18.Model C14.Model C03.Merge.
+From VF Require Import Base.Prelude Generated.Consts C20.Model C20.Range C19.Model Sheet.Model Sheet.Adjust C16.Model C17.Model C07.Model C08.Machine C08.Model C13.Model C13.Chains Sheet.View C11.Model C12.Model C10.Model C18.Model C14.Model C03.Merge.
 Extraction Language OCaml.
 Extraction "model_gen.ml"
   Z.add Z.mul Z.sub Z.div Z.modulo Z.opp Z.ltb Z.eqb Z.of_nat Z.to_nat Pos.succ
   col_name_to_number col_number_to_name split_cell_name join_cell_name
-  cell_name_to_coords coords_to_cell_name
+  cell_name_to_coords coords_to_cell_name range_ref_to_coords coords_to_range_ref sort_coords
   encode_float encode_exact decode_float is_num days_of_civil civil_of_days excel_serial_spec decode_exact_ns
   Sheet.Model.run Sheet.Model.observe Sheet.Model.get_rows Sheet.Model.get_cols Sheet.Model.empty_sheet Sheet.Model.abs Sheet.Model.get_cell_style Sheet.Model.xml_rows Sheet.Model.has_value
   C16.Model.wrun C16.Model.init_wb C16.Model.active_index C16.Model.consistent C16.Model.scope_name
